@@ -476,7 +476,7 @@ use compio_runtime::{
 
 const TOL: Duration = Duration::from_millis(200);
 /// lateness above which a scenario is re-run (its tokens need margins of 10 ms and more)
-const DISTURBED: Duration = Duration::from_millis(4);
+const DISTURBED: Duration = Duration::from_millis(5);
 
 /// Stall canary: a thread that sleeps 500 us at a time and records every window in which it was
 /// itself held up by more than 2 ms (CPU quota throttling, an overloaded machine). A lateness that
@@ -838,7 +838,7 @@ fn run_rt_once(drv: &str, lp: &str, tasks_s: &str) -> RtOut {
     out.line = format!("{} residue={}", toks.join(" "), if residue.is_none() { "0" } else { "+" });
     out.failures = sh.failures.borrow().clone();
     std::thread::sleep(Duration::from_millis(1)); // let the canary close a stall window that is still open
-    out.disturbed = sh.max_late.get() > DISTURBED || !stalled_within(sh.t0, Instant::now()).is_zero();
+    out.disturbed = sh.max_late.get() > DISTURBED || stalled_within(sh.t0, Instant::now()) > DISTURBED;
     out.tags.push(format!("rt:{drv}:{lp}"));
     for t in &tasks {
         out.tags.push(format!("rt:task-{}", &t[..1]));
@@ -859,13 +859,27 @@ fn run_rt(drv: &str, lp: &str, tasks: &str) -> RtOut {
     start_canary();
     let mut last = RtOut::default();
     let mut all_failures = vec![];
+    // "too late" verdicts (beyond the 200 ms tolerance / the watchdog) can be produced by the
+    // environment (a descheduled thread); a defect of the timers is deterministic. They are reported
+    // when they show in three attempts of the same scenario (or in every attempt made).
+    let is_lateness = |sig: &str| sig == "C09:late-fire" || sig == "C09:never-fires";
+    let mut late_attempts = 0;
+    let mut attempts = 0;
     for attempt in 0..12 {
         if attempt > 2 {
             std::thread::sleep(Duration::from_millis(20 * attempt));
         }
         last = run_rt_once(drv, lp, tasks);
+        attempts += 1;
         all_failures.extend(last.failures.clone());
-        if !last.disturbed {
+        let late = last.failures.iter().any(|(s, _)| is_lateness(s));
+        if late {
+            late_attempts += 1;
+            if late_attempts >= 3 {
+                break;
+            }
+        }
+        if !last.disturbed && !late {
             if attempt > 0 {
                 last.tags.push("rt:rerun-after-stall".into());
             }
@@ -875,8 +889,12 @@ fn run_rt(drv: &str, lp: &str, tasks: &str) -> RtOut {
             last.tags.push("rt:gave-up-still-disturbed".into());
         }
     }
-    // a monitor failure in any attempt counts
-    last.failures = all_failures;
+    // every other monitor failure counts, whichever attempt showed it
+    let confirmed = late_attempts >= 3 || late_attempts == attempts;
+    if late_attempts > 0 && !confirmed {
+        last.tags.push("rt:unconfirmed-lateness".into());
+    }
+    last.failures = all_failures.into_iter().filter(|(s, _)| !is_lateness(s) || confirmed).collect();
     last
 }
 
